@@ -2,7 +2,11 @@
 package c02
 
 import (
+	"bytes"
+	"compress/gzip"
 	"fmt"
+	"io"
+	"net/http"
 	"net/http/httptest"
 	"sort"
 	"strings"
@@ -315,7 +319,22 @@ func runOne(x *core.Ctx, r *core.Rng, concurrent bool) {
 			if !(d.rp == "rp1" && from%2 == 0) {
 				url += "&rp=" + d.rp
 			}
-			req := httptest.NewRequest("POST", url, strings.NewReader(sb.String()))
+			var req *http.Request
+			switch (from + w) % 3 {
+			case 0: // gzip body with its (compressed) Content-Length
+				var zb bytes.Buffer
+				zw := gzip.NewWriter(&zb)
+				zw.Write([]byte(sb.String()))
+				zw.Close()
+				req = httptest.NewRequest("POST", url, bytes.NewReader(zb.Bytes()))
+				req.Header.Set("Content-Encoding", "gzip")
+				x.Count("gzip_writes", 1)
+			case 1: // unknown length (chunked)
+				req = httptest.NewRequest("POST", url, io.NopCloser(strings.NewReader(sb.String())))
+				req.ContentLength = -1
+			default:
+				req = httptest.NewRequest("POST", url, strings.NewReader(sb.String()))
+			}
 			rec := httptest.NewRecorder()
 			h.ServeHTTP(rec, req)
 			if rec.Code/100 != 2 {
